@@ -51,7 +51,7 @@ def build(u):
     prov = u.src("proxy_agent/src/provision.rs")
     mh = u.src("proxy_agent_shared/src/misc_helpers.rs")
     el = u.src("proxy_agent_shared/src/telemetry/event_logger.rs")
-    u.features += ["allocator_api", "sized_hierarchy", "pattern"]
+    u.features += ["allocator_api", "sized_hierarchy", "pattern", "const_destruct", "const_trait_impl"]
     for f in ("str_axioms.rs", "ext_types.rs", "std_string.rs", "http.rs", "utf8.rs"):
         u.raw(open(os.path.join(COMMON, f)).read())
     u.raw(open(os.path.join(CON, "authorizer", "spec.rs")).read())
@@ -149,9 +149,10 @@ def build(u):
                 u.take_fn(pc, "TcpConnectionContext::log", contract="        ensures *final(self) == *old(self),  // logging only\n", external_body=True)
                 # THE upstream write primitive of the request path: contract = C01 (+ C05/C14 request leg)
                 u.take_fn(pc, "TcpConnectionContext::send_request", external_body=True,
-                          ghost="Ghost(url): Ghost<hyper::Uri>, Ghost(kk): Ghost<KeyKeeperSharedState>",
+                          ghost="Ghost(url): Ghost<hyper::Uri>, Ghost(kk): Ghost<KeyKeeperSharedState>, Ghost(orig): Ghost<FwdSpec>",
                           contract="""
         requires may_relay(*self, url, kk),    // @C01.send_request.only_attributed_and_authorized
+                 fwd_ok(request, orig),        // @C05+C14+C15.send_request.host_receives_client_request_with_proxy_headers
 """)
             u.take(pc, "HttpConnectionContext", "struct")
             with u.impl_(pc, "HttpConnectionContext"):
@@ -167,10 +168,11 @@ def build(u):
                 final(self).id == old(self).id, final(self).url == old(self).url, final(self).method == old(self).method,
                 final(self).tcp_connection_context == old(self).tcp_connection_context, final(self).now == old(self).now,
 """)
-                u.take_fn(pc, "HttpConnectionContext::send_request", ghost="Ghost(kk): Ghost<KeyKeeperSharedState>",
-                          ghost_calls=[("send_request", None, "Ghost(self.url), Ghost(kk)")],
+                u.take_fn(pc, "HttpConnectionContext::send_request", ghost="Ghost(kk): Ghost<KeyKeeperSharedState>, Ghost(orig): Ghost<FwdSpec>",
+                          ghost_calls=[("send_request", None, "Ghost(self.url), Ghost(kk), Ghost(orig)")],
                           contract="""
         requires may_relay(self.tcp_connection_context, self.url, kk),    // @C01.HttpConnectionContext_send_request.only_attributed_and_authorized
+                 fwd_ok(request, orig),        // @C05+C14+C15.HttpConnectionContext_send_request.host_receives_client_request_with_proxy_headers
 """)
 
         with u.mod("proxy_server", uses="use crate::common::{constants, error::{Error, HyperErrorType}, helpers, hyper_client, logger, result::Result};\nuse crate::proxy::proxy_connection::{ConnectionLogger, HttpConnectionContext, TcpConnectionContext};\nuse crate::proxy::{proxy_authorizer, proxy_authorizer::AuthorizeResult, proxy_summary::ProxySummary, Claims};\nuse crate::shared_state::agent_status_wrapper::AgentStatusSharedState;\nuse crate::shared_state::key_keeper_wrapper::KeyKeeperSharedState;\nuse crate::shared_state::provision_wrapper::ProvisionSharedState;\nuse crate::shared_state::proxy_server_wrapper::ProxyServerSharedState;\nuse crate::shared_state::redirector_wrapper::RedirectorSharedState;\nuse crate::shared_state::telemetry_wrapper::TelemetrySharedState;\nuse http_body_util::Full;\nuse http_body_util::{combinators::BoxBody, BodyExt};\nuse hyper::body::{Bytes, Frame, Incoming};\nuse hyper::header::{HeaderName, HeaderValue};\nuse hyper::StatusCode;\nuse hyper::{Request, Response};\nuse log::Level as LoggerLevel;\nuse crate::proxy_agent_shared::misc_helpers;\nuse crate::proxy_agent_shared::telemetry::event_logger;\nuse tokio_util::sync::CancellationToken;\nuse tower_http::body::Limited;"):
@@ -197,4 +199,80 @@ def build(u):
             log_authorize_failed ==> final(tr).failed.len() == old(tr).failed.len() + 1 && final(tr).failed.drop_last() == old(tr).failed,  // @C11.log_connection_summary.exactly_one_occurrence
             log_authorize_failed && old(http_connection_context).tcp_connection_context.claims is Some && old(http_connection_context).tcp_connection_context.destination_ip is Some
                 ==> final(tr).failed.last() == denial_event(old(http_connection_context).tcp_connection_context, response_status),  // @C11.log_connection_summary.under_callers_user_process_cmdline_destination
+""")
+
+                fr = ps.item("ProxyServer::forward_response", "fn")
+                st = fr["blocks"][0]["stmts"]
+                if len(st) != 8 or len(fr["matches"]) < 2:
+                    raise Undecided("forward_response: statement structure changed (%d statements)" % len(st))
+                inner_match = [m for m in fr["matches"] if ps.s(m["scrutinee"][0], m["scrutinee"][1]).strip() == "e"]
+                if len(inner_match) != 1:
+                    raise Undecided("forward_response: `match e` not found")
+                u.take_fn(ps, "ProxyServer::forward_response",
+                          ghost="Tracked(tr): Tracked<&mut HTrace>",
+                          ghost_calls=[("log_connection_summary", "all", "Tracked(tr)")],
+                          pre_body="broadcast use group_http_fmt, axiom_fmt_error, axiom_key_view_hn;",
+                          e9=status_e9() + [
+                              # E9: pattern match on the (opaque) error enum chooses the status
+                              ((inner_match[0]["span"][0], inner_match[0]["span"][1]), None, "e: &Error", "&e", "StatusCode",
+                               "    ensures status_code(r) == 502 || status_code(r) == 503,", dict(name="vx_e9_upstream_error_status", local=True,
+                                body_prefix="let e = e; ", body=None)),
+                              # E9 (statement range): hyper body plumbing (map_frame closure, boxed()) -- the response is rebuilt from the
+                              # upstream parts; the per-byte map of the closure is checked by the Kani companion (panic_bytes unit)
+                              ((st[1][0], st[4][1]), None, "http_connection_context: &HttpConnectionContext, proxy_response: Response<Incoming>",
+                               "&http_connection_context, proxy_response", "Response<BoxBody<Bytes, hyper::Error>>", """
+    ensures resp_status(r) == resp_status(proxy_response), resp_headers(r) == resp_headers(proxy_response),
+            relayed_body(resp_body(proxy_response), resp_body(r)),""",
+                               dict(name="vx_e9_rebuild_response", local=True, body_suffix=" response", replacement="let mut response = $CALL;")),
+                          ],
+                          contract="""
+        ensures
+            final(tr).failed == old(tr).failed,     // @C11.forward_response.records_no_denial
+            r is Ok,
+            proxy_response matches Ok(up) ==> {
+                &&& resp_status(r->Ok_0) == resp_status(up)       // @C14.forward_response.status_unchanged
+                &&& hm_view(resp_headers(r->Ok_0)).remove(AUTH_H()) == hm_view(resp_headers(up)).remove(AUTH_H())   // @C14.forward_response.headers_unchanged_except_marker
+                &&& one_value(hm_view(resp_headers(r->Ok_0)), AUTH_H())
+                &&& relayed_body(resp_body(up), resp_body(r->Ok_0))  // @C14.forward_response.body_relayed
+            },
+            proxy_response is Err ==> (status_code(resp_status(r->Ok_0)) == 502 || status_code(resp_status(r->Ok_0)) == 503) && body_is_empty(resp_body(r->Ok_0)),
+""")
+
+                hs = ps.item("ProxyServer::handle_request_with_signature", "fn")
+                u.take_fn(ps, "ProxyServer::handle_request_with_signature",
+                          ghost="Ghost(orig): Ghost<FwdSpec>, Tracked(tr): Tracked<&mut HTrace>",
+                          ghost_calls=[("forward_response", None, "Tracked(tr)"),
+                                       ("send_request", None, "Ghost(self.key_keeper_shared_state), Ghost(orig)")],
+                          pre_body="broadcast use group_http_fmt, axiom_fmt_error, axiom_key_view_hn, axiom_fmt_collect_error;\nproof { lits_headers(); }",
+                          e9=status_e9() + [
+                              # E9: hyper body collection (error type is `Box<dyn Error + Send + Sync>`: not expressible in Verus)
+                              ("body.collect().await", None, "body: Limited<Incoming>", "body", "core::result::Result<VxCollected, VxCollectError>", """
+    ensures (r matches Ok(d) ==> body_bytes(body) == Some(collected_view(d))),
+            (r is Err ==> body_bytes(body) is None),""",
+                               dict(name="vx_e9_collect_limited", local=True, is_async=True, body="match body.collect().await { Ok(c) => Ok(VxCollected(c)), Err(e) => Err(VxCollectError(e)) }")),
+                          ],
+                          e6=[("authorization_value", None, ["$@", "$@", "$@"])],
+                          hints=[
+                              ("let (head, body) = request.into_parts();", None, "after", "let ghost pre_h = parts_headers(head);"),
+                              ('"Added authorization header {}"', None, "before", """
+proof {
+    reveal_strlit("");
+    assert(""@ =~= Seq::<char>::empty());
+    let h = hm_view(req_headers(proxy_request));
+    assert(h == hm_view(pre_h).insert(AUTH_H(), seq![h[AUTH_H()][0]]));
+    assert(hm_view(pre_h).remove(AUTH_H()) =~= h.remove(AUTH_H()));
+    assert(hv_view(h[AUTH_H()][0]) =~= sig_value(key_guid@, key@, req_method(proxy_request), req_uri(proxy_request), pre_h, full_view(req_body(proxy_request))));
+    assert(auth_signed(proxy_request, key_guid@, key@));   // @C04.handle_request_with_signature.signature_over_what_is_sent
+}"""),
+                          ],
+                          contract="""
+        requires
+            may_relay(http_connection_context.tcp_connection_context, http_connection_context.url, self.key_keeper_shared_state),  // @C01.handle_request_with_signature.only_attributed_and_authorized
+            req_method(request) == orig.method, req_uri(request) == orig.uri, body_bytes(req_body(request)) == orig.body,
+            proxy_headers_ok(hm_view(req_headers(request)), orig.elevated),
+            client_headers_kept(hm_view(req_headers(request)), orig.headers0),
+            auth_unsigned(hm_view(req_headers(request)), orig.headers0),
+        ensures
+            final(tr).failed == old(tr).failed,     // @C11.handle_request_with_signature.records_no_denial
+            r is Ok,
 """)
